@@ -377,6 +377,7 @@ def enumerated(rng):
             s = bi(c, i)
             out.append(Site("malformed-number", c % lit, (s, s + len(lit.encode())), note=lit))
     sigs = ["*", "a, *", "a=1, *", "*, **k", "a, /, *", "a, *, **k", "*,", "a, b, *, **kw"]
+    out += signature_violations()
     for sg in sigs:
         for tpl in ("def f(%s): pass\n", "async def f(%s): pass\n", "x = lambda %s: 0\n", "class C:\n    def m(%s): pass\n"):
             i = tpl.index("%s")
@@ -386,6 +387,53 @@ def enumerated(rng):
     for pat in ("y as _", "_ as _", "[a, b] as _", "(1 | 2) as _", "C(x as _)", "{'k': v as _}", "[x as _, y]"):
         txt = "match s:\n    case %s: pass\n" % pat
         out.append(Site("as-underscore", txt, (18, 18 + len(pat) + 1), note=pat))
+    return out
+
+
+def signature_violations():
+    """Exhaustive small-scope parameter lists that violate the default-order or the duplicate-name rule, in four containers."""
+    import itertools
+    out = []
+    forms = ["def f(%s): pass\n", "async def f(%s): pass\n", "x = lambda %s: 0\n", "class C:\n    def m(%s): pass\n"]
+
+    def emit(rule, sig, extra=None):
+        for tpl in forms:
+            i = tpl.index("%s")
+            out.append(Site(rule, tpl % sig, (bi(tpl, i) - 1, bi(tpl, i) + len(sig.encode()) + 2), extra=extra, note=sig))
+    # default order: up to 2 positional-only + 2 ordinary parameters, every default mask with a non-default after a default
+    for npos in range(0, 3):
+        for nargs in range(0, 3):
+            names = ["p%d" % i for i in range(npos)] + ["a%d" % i for i in range(nargs)]
+            for mask in itertools.product([False, True], repeat=len(names)):
+                if not any(mask[i] and not mask[j] for i in range(len(names)) for j in range(i + 1, len(names))):
+                    continue
+                parts = []
+                for i, nm in enumerate(names):
+                    parts.append(nm + ("=1" if mask[i] else ""))
+                    if i == npos - 1:
+                        parts.append("/")
+                for tail in ("", ", *v", ", *, k", ", **kw"):
+                    emit("default-order", ", ".join(parts) + tail)
+    # duplicates: two slots of different (or the same) kind share one name
+    slots = [("p", "{n}", "/"), ("a", "{n}", None), ("v", "*{n}", None), ("k", "{n}", None), ("w", "**{n}", None)]
+    for i in range(len(slots)):
+        for j in range(i, len(slots)):
+            if i == j and slots[i][0] in ("v", "w"):
+                continue
+            parts = []
+            for idx, (kind, fmt, after) in enumerate(slots):
+                count = 2 if (i == j == idx) else 1
+                use = idx in (i, j) or idx in (1,)
+                if not use:
+                    continue
+                if kind == "k" and not any(s_[0] == "v" and (slots.index(s_) in (i, j)) for s_ in slots):
+                    parts.append("*")
+                for c in range(count):
+                    nm = "dup" if idx in (i, j) else "other"
+                    parts.append(fmt.format(n=nm))
+                if after and idx in (i, j):
+                    parts.append(after)
+            emit("duplicate-parameter", ", ".join(parts), extra="dup")
     return out
 
 
